@@ -1083,7 +1083,15 @@ class C15(Prop):
         for i in range(nheap):
             yield self.gen_heap(rng, i)
         for i in range(250 if tier == "quick" else 5000):
-            yield self.gen_ds(rng, i)
+            c = self.gen_ds(rng, i)
+            if i < 24:
+                # systematic: the engine behind take_axis / sort_axis / ... called directly, with every keepattrs setting, on a
+                # Dataset holding a variable that lacks the reduced dimension
+                dims = ["x", "y"]
+                c = {"op": "ds", "dims": dims, "labels": {"x": [3, 1, 2], "y": [0, 5]}, "seed": i,
+                     "vars": [["v0", ["x", "y"]], ["v1", [dims[i % 2]]], ["v2", [dims[(i + 1) % 2]]]],
+                     "calls": [["reduce_axis", ["mean", "sum", "max"][i % 3], dims[(i // 2) % 2], [None, False, True][(i // 4) % 3]]]}
+            yield c
         for i in range(450 if tier == "quick" else 9000):
             # operands that are themselves results of library operations (N-d boolean read, flatten, newaxis, stack ...)
             rank = rng.choice([2, 2, 3])
